@@ -245,6 +245,8 @@ func rulesC01(c *Ctx) {
 
 	c.meltDecisionTable("R5", false)
 	c.ruleUnlockCallers("R11")
+	R.Rule("R12", "a spent proof is reported SPENT: the proof-state check reads the spent and pending tables after it has resolved the pending melt quotes, never before (shared with C05.R5 / C15.R3)", 2)
+	c.ruleResolveBeforeAnswer("R12")
 	c.readersReturnEveryRow("R10", "GetProofsUsed", "GetPendingProofs")
 	c.ruleSQLAgreement("R10", map[string]bool{"proofs": true, "pending_proofs": true})
 	c.c01Schema()
